@@ -232,3 +232,17 @@ M("c04.keyword-first-match", "C04", PAR, "                if 2 * len(kw) + int(l
 M("c04.background-and-does-not-inherit", "C04", PAR, "            this_background_steps = (this_background.steps or\n                                     this_background.inherited_steps)", "            this_background_steps = this_background.steps")
 M("c04.docstring-lines-lstripped", "C04", PAR, "        text_line = line[self.multiline_leading:].rstrip()", "        text_line = line[self.multiline_leading:].strip()")
 M("c04.language-header-ignored-after-blank", "C04", PAR, "            if line.lstrip().lower().startswith(\"language:\"):", "            if self.line == 1 and line.lstrip().lower().startswith(\"language:\"):")
+
+# ---- C05 -------------------------------------------------------------------
+M("c05.and-without-predecessor-accepted", "C05", PAR, "                        if not self.last_step_type:\n                            msg = u\"{step_type}-STEP REQUIRES: An previous Given/When/Then step.\"\n                            raise ParserError(msg.format(step_type=step_type.upper()),\n                                              self.line, self.filename)",
+  "                        if not self.last_step_type:\n                            self.last_step_type = \"given\"")
+M("c05.malformed-table-line-minus-one", "C05", PAR, "                raise ParserError(u\"Malformed table\", self.line, self.filename)", "                raise ParserError(u\"Malformed table\", self.line - 1, self.filename)")
+M("c05.examples-check-removed", "C05", PAR, "        if not isinstance(self.statement, model.ScenarioOutline):\n            message = u\"Examples must only appear inside scenario outline\"\n            raise ParserError(message, self.line, self.filename, line)",
+  "        if not hasattr(self.statement, \"examples\"):\n            self.statement.examples = []")
+M("c05.text-after-steps-ignored", "C05", PAR, "            self.state = State.TABLE\n            return self.action_table(line)\n\n        return False", "            self.state = State.TABLE\n            return self.action_table(line)\n\n        return True")
+M("c05.bad-tag-silently-dropped", "C05", PAR, "                # -- BAD-TAG: Abort here.\n                message = u\"tag: %s (line: %s)\" % (word, line)\n                raise ParserError(message, self.line, self.filename)", "                continue")
+M("c05.unknown-language-keyerror", "C05", PAR, "                if language not in i18n.languages:\n                    raise ParserError(u\"Unknown language: %s\" % language,\n                                      self.line, self.filename, line)\n", "")
+# (removing the explicit second-Background check is equivalent: after a Background with steps the parser is in state STEPS, where a Background line is rejected anyway)
+M("c05.error-line-is-zero-based", "C05", PAR, "            raise ParserError(msg, self.line, self.filename,\n                              line_text=line, reason=reason)", "            raise ParserError(msg, self.line - 1, self.filename,\n                              line_text=line, reason=reason)")
+M("c05.table-not-reset-on-reuse", "C05", PAR, "        self.lines = []\n        self.table = None\n        self.examples = None\n\n    def _parse_loop", "        self.lines = []\n        self.examples = None\n\n    def _parse_loop")
+M("c05.docstring-before-step-accepted", "C05", PAR, "            if not self.statement.steps:\n                raise ParserError(\"Multi-line text before any step\",\n                                  self.line, self.filename)", "            if not self.statement.steps:\n                return True")
